@@ -16,16 +16,23 @@ SameLogged(a, b) == Len(a) = Len(b) /\ \A i \in DOMAIN a : a[i].top = b[i].top /
 StrA == LET o == Outcome(T.text, "str") IN [ok |-> o.ok, gs |-> GraphsOf(o.trees, M)]
 \* a list-returning loader gives nothing on error, an iterator gives the graphs before the error: both are prefixes
 IsPrefix(gs, lgs) == Len(lgs) <= Len(gs) /\ \A i \in DOMAIN lgs : SameG(gs[i], lgs[i])
+\* Where the reference reading accepts the text, every container gives exactly its graphs.  Where it does not (the text is
+\* then outside the property's quantifier: not a sequence of graphs), the property still asks the containers to agree with
+\* each other: all fail (having produced a prefix of the reference graphs) or all succeed with the same graphs.
+AllOK == \A i \in DOMAIN T.outs : T.outs[i].ok
 StrV(a) ==
     LET bad == {i \in DOMAIN T.outs :
                    \/ T.outs[i].exc \notin {"", "DecodeError"}
-                   \/ T.outs[i].ok # a.ok
+                   \/ (a.ok /\ ~T.outs[i].ok)
+                   \/ (~a.ok /\ T.outs[i].ok # T.outs[1].ok)
                    \/ (a.ok /\ ~SameSeq(a.gs, T.outs[i].graphs))
-                   \/ (~a.ok /\ ~IsPrefix(a.gs, T.outs[i].graphs))}
+                   \/ (~a.ok /\ ~T.outs[i].ok /\ ~IsPrefix(a.gs, T.outs[i].graphs))
+                   \/ (~a.ok /\ AllOK /\ ~SameLogged(T.outs[i].graphs, T.outs[1].graphs))}
     IN IF bad # {} THEN LET i == CHOOSE x \in bad : \A y \in bad : x <= y IN
             <<"REJECT", (IF T.outs[i].exc \notin {"", "DecodeError"} THEN "exception-class " \o T.outs[i].exc
-                         ELSE IF T.outs[i].ok # a.ok THEN "acceptance-differs-between-containers"
+                         ELSE IF (a.ok /\ ~T.outs[i].ok) \/ (~a.ok /\ T.outs[i].ok # T.outs[1].ok) THEN "acceptance-differs-between-containers"
                          ELSE "graphs-differ-between-containers") \o " @ " \o T.outs[i].c>>
+       ELSE IF ~a.ok /\ AllOK THEN <<"DRIFT", "every container accepts a text the reference reading rejects">>
        ELSE IF a.ok /\ \E i \in DOMAIN T.outs : \E k \in DOMAIN a.gs : ~SameMarkers(a.gs[k], T.outs[i].graphs[k])
             THEN <<"DRIFT", "markers differ from the reference reading">>
        ELSE Acc
